@@ -88,6 +88,30 @@ class Values:
         return self.intern(canon(v)) if dumpable(v) else 0
 
 
+ZERO_D_OK = {"mutation_rate", "eps", "minimum_gap", "max_shape", "rescaling_iterations", "max_iterations"}
+
+
+def npify(rng, key, v):
+    """the same value as a numpy scalar / 0-d array (np.bool_, np.str_, np.int64, np.int32,
+    np.float64, np.float32 or np.float16 when exact, 0-d ndarray)"""
+    if isinstance(v, (bool, np.bool_)):
+        return np.bool_(v)
+    if isinstance(v, str):
+        return np.str_(v)
+    if isinstance(v, int):
+        c = [np.int64(v), np.int32(v)] + ([np.array(v)] if key in ZERO_D_OK else [])
+        return rng.choice(c)
+    if isinstance(v, float):
+        c = [np.float64(v)]
+        for t in (np.float32, np.float16):
+            if float(t(v)) == v:
+                c.append(t(v))
+        if key in ZERO_D_OK:
+            c.append(np.array(v))
+        return rng.choice(c)
+    return v
+
+
 def with_provenances(rng, ts):
     """0..4 earlier records"""
     tables = ts.dump_tables()
@@ -150,20 +174,24 @@ def gen_dating_call(rng, ts):
     if rng.random() < 0.25:
         k = rng.choice(UNRECORDED)
         extra[k] = {"constr_iterations": 3, "min_branch_length": 0.01, "allow_unary": True, "set_metadata": False}[k]
-    # numpy-typed values (K4, repaired in 41e0a45): must be recorded as their python equivalents
+    # numpy-typed values (K4, repaired in 41e0a45): the record must hold the JSON equivalent of the
+    # value used -- same type (true/false, number, string, list) and same value
     bad = None
-    if rng.random() < 0.15:
-        if method == "variational_gamma":
-            bad = rng.choice(["max_iterations", "mutation_rate", "rescaling_intervals"])
-            v = {"max_iterations": np.int64(2), "mutation_rate": np.float32(0.5), "rescaling_intervals": np.int32(0)}[bad]
-        else:
-            bad = rng.choice(["population_size", "num_threads", "mutation_rate"])
-            v = {"population_size": np.array([1.0]), "num_threads": np.int64(1), "mutation_rate": np.float32(0.5)}[bad]
-            if bad == "population_size":
-                pop_expected = v
-        kw[bad] = v
-        if bad in args:
-            args[bad] = v
+    if rng.random() < 0.35:
+        for k in list(kw):
+            if k == "population_size":
+                if rng.random() < 0.3 and isinstance(kw[k], float):
+                    kw[k] = pop_expected = rng.choice([np.array([kw[k]]), np.float64(kw[k])])
+                    bad = bad or k
+                continue
+            if kw[k] is None or rng.random() < 0.5:
+                continue
+            v = npify(rng, k, kw[k])
+            if v is not kw[k]:
+                kw[k] = v
+                if k in args:
+                    args[k] = v
+                bad = bad or k
     rp = rng.choice(["absent", None, True, False])
     if rp != "absent":
         kw["record_provenance"] = rp
@@ -226,6 +254,17 @@ def gen_prep_call(rng, ts):
     for k in ("split_disjoint", "filter_populations", "filter_individuals", "filter_sites"):
         if rng.random() < 0.4:
             kw[k] = rng.choice([True, False])
+    if rng.random() < 0.35:
+        for k in list(kw):
+            if k in ("delete_intervals",) or kw[k] is None or rng.random() < 0.4:
+                continue
+            v = npify(rng, k, kw[k])
+            if v is not kw[k]:
+                kw[k] = v
+                bad = bad or k
+        if not use_di:
+            mg = kw.get("minimum_gap", 1000000)
+            ef = kw.get("erase_flanks", True)
     if rng.random() < 0.2:
         extra["keep_unary"] = True
     rp = rng.choice(["absent", None, True, False])
